@@ -360,7 +360,9 @@ int main(int argc, char** argv) {
         prefix = parseHist("A0.0.0 A0.1.0 A1.2.0 A2.2.0 A3.1.0 A4.0.0 S5.1.1 S6.1.1 S3.1.1 S4.1.1 S1.1.1 S2.1.1 S0.1.1");
     } else if (part == "diamond") {
         // e3/e4 reach the same position after ...e6/...e5 with different path lengths and several parents
-        prefix = parseHist("A0.0.0 A0.1.0 A1.2.0 A2.3.0 S0.1.1 S1.1.1 S2.1.1");
+        // (move indices depend on the alphabet in use: look the four moves up by name)
+        auto mi = [&](const char* n) { for (size_t i = 0; i < MOVES.size(); i++) if (MOVES[i] == n) return std::to_string(i); fprintf(stderr, "diamond: move %s not in the alphabet\n", n); exit(2); };
+        prefix = parseHist("A0." + mi("e3") + ".0 A0." + mi("e4") + ".0 A1." + mi("e6") + ".0 A2." + mi("e5") + ".0 S0.1.1 S1.1.1 S2.1.1");
     }
     {
         World* p = build(prefix);
